@@ -19,6 +19,9 @@
 4. Replay of those inputs through `chibicc -E`: (i) tokens = expected,
    (ii) E(E(x)) = E(x) token for token.  Over test/*.c and the compiler's own
    sources: (ii) and (iii) -S of E(x) = -S of x after deleting .loc/.file lines.
+5. Sequences: family PS (two adjacencies in one file, one process per case) and 100
+   generated two-statement programs, so that printer state carried from one separation
+   decision to the next is observed.
 """
 import glob, json, os, re, subprocess
 import vt, ppcase, pptok, c09
@@ -150,13 +153,32 @@ def corpus(ctx, tree, files):
         raise Infra("no corpus file could be compiled")
 
 
+SEQ_TERMS = [("e", "+1"), ("0xe", "+1"), ("E", "-1"), ("0xE", "-1"), ("x", "+1"), ("1", "+1"), ("1.", "+x"),
+             ("0xe", "-x"), ("x", "-1"), ("e", "-x")]
+
+
+def sequence_programs(ctx):
+    """(ii)/(iii) on SEQUENCES of adjacency cases: one small program per ordered pair of terms `ID(a)b`
+    (a an identifier or a pp-number ending in e/E/., b a signed operand), so that state carried by the
+    printer from the first decision to the second changes the program or makes it uncompilable."""
+    d = ctx.tmp("seqprog")
+    out = []
+    for i, (a1, b1) in enumerate(SEQ_TERMS):
+        for j, (a2, b2) in enumerate(SEQ_TERMS):
+            f = os.path.join(d, "seq_%d_%d.c" % (i, j))
+            open(f, "w").write("#define ID(v) v\ndouble f(int e, int E, int x) {\n  double r = 0;\n"
+                               "  r += ID(%s)%s;\n  r += ID(%s)%s;\n  return r;\n}\n" % (a1, b1, a2, b2))
+            out.append(f)
+    return out
+
+
 def run(ctx):
     q = ctx.quick
     tree = ctx.build()
     chib, gcc = c09.tools(ctx, tree)
     ctx.phase("build done")
     jobs = []
-    for fam, stride in (("P", 7 if q else 1), ("PT", 11 if q else 1)):
+    for fam, stride in (("P", 7 if q else 1), ("PT", 11 if q else 1), ("PS", 1)):
         cfg = ctx.cfg("pp", "Macro_gen.cfg", Family='"%s"' % fam, Stride=stride, Seed=ctx.seed % stride)
         cfg2 = cfg[:-4] + "-inv.cfg"
         open(cfg2, "w").write(open(cfg).read().replace("StandardExamples", "PrintedFaithful"))
@@ -195,7 +217,7 @@ def run(ctx):
     files = sorted(glob.glob(tree + "/test/*.c")) + sorted(glob.glob(tree + "/*.c"))
     if q:
         files = vt.subsample(files, ctx.seed, 3)
-    corpus(ctx, tree, files)
+    corpus(ctx, tree, files + sequence_programs(ctx))
     ctx.phase("corpus done")
     ctx.assumptions += [
         "Level I flags: `sp` stands for has_space or at_bol (both print white space); the first token of the output is never separated",
